@@ -362,13 +362,27 @@ func RunSMT(o *drv.Out, v *Verifier, lim *limiter) {
 
 // RunStore: grain (b) — the proofs the Store serves for a committed version.
 func RunStore(o *drv.Out, lim *limiter) {
-	r := o.Rng
 	u := c08.NewUniverse(160, o.Tier == "thorough")
 	cases := 9
 	if o.Tier == "thorough" {
 		cases = 42
 	}
 	for ci := 0; ci < cases; ci++ {
+		runStoreCase(o, lim, u, ci)
+	}
+}
+
+// runStoreCase: one store-level case. A panic or an unexpected error of the real code ends the case with an oracle failure
+// (C16:store-panic-in-real-code) — the failures recorded before it, and the other cases, are kept.
+func runStoreCase(o *drv.Out, lim *limiter, u *c08.Universe, ci int) {
+	r := o.Rng
+	var hist []string
+	defer func() {
+		if p := recover(); p != nil {
+			lim.fail("C16:store-panic-in-real-code", fmt.Sprintf("store-proof #%d: %v", ci, p), map[string]any{"history": hist})
+		}
+	}()
+	{
 		// what happens to the database between a commit and the read-only stores that serve proofs for it:
 		// nothing (memtable), a pebble Flush (the height's entries land in an sstable of their own), or Close + reopen
 		mode := []string{"memtable", "flush", "reopen"}[ci%3]
@@ -388,7 +402,6 @@ func RunStore(o *drv.Out, lim *limiter) {
 		st := open()
 		o.Case(fmt.Sprintf("store-proof #%d (%s)", ci, mode))
 		o.Op("store", "ok")
-		var hist []string
 		rec := func(op, res string) { hist = append(hist, op); o.Op(op, res) }
 		state := map[int][]byte{}
 		type ver struct {
@@ -469,6 +482,7 @@ func RunStore(o *drv.Out, lim *limiter) {
 			k          c08.UKey
 			val        []byte
 			membership bool
+			falseStmt  bool // the statement is FALSE of the state at that height: it must not be accepted
 		}
 		// ask: NewReadOnly(vn) on the live store, its Root(), GetProof and VerifyProof against the root committed for vn
 		ask := func(vn uint64, root []byte, qs []q, window string) {
@@ -483,6 +497,15 @@ func RunStore(o *drv.Out, lim *limiter) {
 				o.Count("sproof:" + mode + window + ":" + m + ":" + res[strings.LastIndex(res, " ")+1:])
 				o.Nontrivial(fmt.Sprintf("store|%d|%s%s", ci, op, window))
 				rootOK := strings.HasPrefix(res, "roroot "+drv.Hex(root)+" ")
+				if x.falseStmt {
+					if strings.HasSuffix(res, "verdict accept") {
+						lim.fail("C16:abandoned-fork-key-proven-present",
+							fmt.Sprintf("NewReadOnly(%d) [%s%s]: the proof served for %x verifies as MEMBERSHIP with value %x against the root committed for version %d (%x), but the key is not in the state at that height (it was written only at a height that was rolled back)",
+								vn, mode, window, x.k.User, x.val, vn, root),
+							map[string]any{"history": hist, "between_commit_and_read": mode, "window": window})
+					}
+					continue
+				}
 				if strings.HasSuffix(res, "verdict accept") && rootOK {
 					continue
 				}
@@ -521,15 +544,15 @@ func RunStore(o *drv.Out, lim *limiter) {
 			}
 			sort.Ints(idx)
 			for _, i := range idx {
-				qs = append(qs, q{u.Keys[i], vv.state[i], true})
+				qs = append(qs, q{u.Keys[i], vv.state[i], true, false})
 			}
 			for _, i := range vv.deleted {
-				qs = append(qs, q{u.Keys[i], nil, false})
+				qs = append(qs, q{u.Keys[i], nil, false, false})
 			}
 			for n := 0; n < 3; {
 				i := r.Intn(len(u.Keys))
 				if _, ok := vv.state[i]; !ok && !u.Reserved(u.Keys[i].Bits) {
-					qs = append(qs, q{u.Keys[i], nil, false})
+					qs = append(qs, q{u.Keys[i], nil, false, false})
 					n++
 				}
 			}
@@ -548,7 +571,7 @@ func RunStore(o *drv.Out, lim *limiter) {
 			sort.Ints(idx)
 			for n, i := range idx {
 				k := u.Keys[i]
-				qs = append(qs, q{k, vv.state[i], true})
+				qs = append(qs, q{k, vv.state[i], true, false})
 				switch n % 3 {
 				case 0:
 					st.Delete(k.User)
@@ -565,7 +588,7 @@ func RunStore(o *drv.Out, lim *limiter) {
 					val := []byte{0xCC, byte(n)}
 					st.Set(u.Keys[i].User, val)
 					rec("set "+drv.Hex(u.Keys[i].User)+" "+drv.Hex(val), "ok")
-					qs = append(qs, q{u.Keys[i], nil, false}) // absent at V, written by the block in progress
+					qs = append(qs, q{u.Keys[i], nil, false, false}) // absent at V, written by the block in progress
 					n++
 				}
 			}
@@ -584,12 +607,118 @@ func RunStore(o *drv.Out, lim *limiter) {
 				}
 				sort.Ints(pidx)
 				for _, i := range pidx[:min(3, len(pidx))] {
-					pq = append(pq, q{u.Keys[i], pv.state[i], true})
+					pq = append(pq, q{u.Keys[i], pv.state[i], true, false})
 				}
 				ask(V-1, pv.root, pq, ":during-pending-block")
 			}
 			st.Reset()
 			rec("reset", "ok")
+		}
+		// ROLLBACK: the heights above `target` are abandoned (they changed state), a different block is committed on top
+		// of `target`; the read-only store of the new height must prove the model state and nothing of the abandoned fork
+		{
+			tip := st.Version()
+			target := tip - 1 - uint64(ci%2)
+			if target < 1 {
+				target = 1
+			}
+			tipState, tgt := versions[tip].state, versions[target]
+			var forkOnly []int // keys in the state at the abandoned tip that the state at the target does not have
+			for i := range tipState {
+				if _, ok := tgt.state[i]; !ok {
+					forkOnly = append(forkOnly, i)
+				}
+			}
+			sort.Ints(forkOnly)
+			if e := st.Rollback(target); e != nil {
+				lim.fail("C16:rollback-failed", fmt.Sprintf("store-proof #%d [%s]: Rollback(%d) at height %d: %v", ci, mode, target, tip, e),
+					map[string]any{"history": hist, "between_commit_and_read": mode})
+				st.DB().Close()
+				return
+			}
+			rec(fmt.Sprintf("rollback %d", target), fmt.Sprintf("version %d", st.Version()))
+			o.Count("store:rollback")
+			for h := range versions {
+				if h > target {
+					delete(versions, h)
+				}
+			}
+			state = map[int][]byte{}
+			for i, val := range tgt.state {
+				state[i] = val
+			}
+			switch mode {
+			case "flush":
+				if err := st.DB().Flush(); err != nil {
+					panic(err)
+				}
+				rec("flush", "ok")
+			case "reopen":
+				if e := st.Close(); e != nil {
+					panic(e)
+				}
+				st = open()
+				rec("reopen", fmt.Sprintf("version %d", st.Version()))
+			}
+			// the block that replaces the abandoned fork: other keys, one delete and one overwrite of the target's keys
+			var deleted []int
+			for n := 0; n < 8; {
+				i := r.Intn(len(u.Keys))
+				_, inTip := tipState[i]
+				if _, ok := state[i]; ok || inTip || u.Reserved(u.Keys[i].Bits) || u.Border[u.Keys[i].Bits] {
+					continue
+				}
+				val := []byte{0xDD, byte(n)}
+				st.Set(u.Keys[i].User, val)
+				state[i] = val
+				rec("set "+drv.Hex(u.Keys[i].User)+" "+drv.Hex(val), "ok")
+				n++
+			}
+			var tidx []int
+			for i := range tgt.state {
+				tidx = append(tidx, i)
+			}
+			sort.Ints(tidx)
+			if len(tidx) >= 2 {
+				st.Delete(u.Keys[tidx[0]].User)
+				delete(state, tidx[0])
+				deleted = append(deleted, tidx[0])
+				rec("del "+drv.Hex(u.Keys[tidx[0]].User), "ok")
+				val := []byte{0xDE, 0xAD}
+				st.Set(u.Keys[tidx[1]].User, val)
+				state[tidx[1]] = val
+				rec("set "+drv.Hex(u.Keys[tidx[1]].User)+" "+drv.Hex(val), "ok")
+			}
+			root, e := st.Commit()
+			if e != nil {
+				panic(e)
+			}
+			rec("commit", fmt.Sprintf("root %s l0 same version %d", drv.Hex(root), st.Version()))
+			nv := st.Version()
+			var qs []q
+			var idx []int
+			for i := range state {
+				idx = append(idx, i)
+			}
+			sort.Ints(idx)
+			for _, i := range idx {
+				qs = append(qs, q{k: u.Keys[i], val: state[i], membership: true})
+			}
+			for _, i := range deleted {
+				qs = append(qs, q{k: u.Keys[i]})
+			}
+			for _, i := range forkOnly {
+				qs = append(qs, q{k: u.Keys[i]})                                                      // absent: a verifying NON-membership proof must be served
+				qs = append(qs, q{k: u.Keys[i], val: tipState[i], membership: true, falseStmt: true}) // and it must not be provable present
+				o.Count("store:rollback:fork-only-key")
+			}
+			ask(nv, root, qs, ":after-rollback")
+			// the target height itself is still served
+			var tq []q
+			for _, i := range tidx[:min(4, len(tidx))] {
+				tq = append(tq, q{k: u.Keys[i], val: tgt.state[i], membership: true})
+			}
+			ask(target, tgt.root, tq, ":after-rollback")
 		}
 		st.DB().Close()
 	}
